@@ -46,7 +46,19 @@ theorem rcv_final_size_stream {r : Recv} {offset len received maxData fo : Nat} 
     {res : Except TErr (Nat × Bool × Recv)} (h : r.ingest offset len fin received maxData = some res)
     (hb : offset + len < 2 ^ 62) (hfo : r.finalOffset = some fo)
     (hbad : offset + len > fo ∨ (fin = true ∧ offset + len ≠ fo)) : res = .error (.finalSize "") := by
-  have hc : r.finalSizeConflict (offset + len) fin := ⟨fo, hfo, hbad⟩
+  have hc : r.finalSizeConflict (offset + len) fin := Or.inl ⟨fo, hfo, hbad⟩
+  rcases ingest_cases h with ⟨h1, _⟩ | ⟨_, _, he⟩ | ⟨_, h2, _⟩ | ⟨_, h2, _⟩
+  · omega
+  · exact he
+  · exact absurd hc h2
+  · exact absurd hc h2
+
+/-- a FIN whose final size lies below data already received on the stream -> FINAL_SIZE_ERROR
+    (RFC 9000 4.5), whether or not a final size was known before -/
+theorem rcv_final_size_below_received {r : Recv} {offset len received maxData : Nat}
+    {res : Except TErr (Nat × Bool × Recv)} (h : r.ingest offset len true received maxData = some res)
+    (hb : offset + len < 2 ^ 62) (hlow : offset + len < r.end_) : res = .error (.finalSize "") := by
+  have hc : r.finalSizeConflict (offset + len) true := Or.inr ⟨rfl, hlow⟩
   rcases ingest_cases h with ⟨h1, _⟩ | ⟨_, _, he⟩ | ⟨_, h2, _⟩ | ⟨_, h2, _⟩
   · omega
   · exact he
@@ -126,6 +138,18 @@ theorem rcv_stream_bound {c : Config} {s : State} {C W : Nat} {U : Prop} (r : Re
   have h2 : rs.sentMaxStreamData ≤ rs.assembler.bytesRead + s.streamReceiveWindow := ok.sent_le
   exact ⟨h1, h2, ok.read_le, by omega⟩
 
+/-- once the final size of a stream is known (FIN or RESET_STREAM), nothing was received beyond it,
+    nothing beyond it is buffered, and the application was handed no byte beyond it: in every
+    reachable state `bytes_read ≤ end ≤ final size` and every buffered range ends at or below it -/
+theorem rcv_final_size_bounds_stream {c : Config} {s : State} {C W : Nat} {U : Prop} (r : ReachR c s C W U)
+    (hc : c.receiveWindow < 2 ^ 62) (id : Nat) (rs : Recv) (hf : s.recv.find? id = some (some rs))
+    (fo : Nat) (hfo : rs.finalOffset = some fo) :
+    rs.end_ ≤ fo ∧ rs.assembler.bytesRead ≤ fo ∧ ∀ a b, (a, b) ∈ rs.assembler.buf → b ≤ fo := by
+  have ok := (reachR_inv r hc).1.streams id rs (rv_eq_some.mpr hf)
+  have h1 := ok.fin_le fo hfo
+  have h2 := ok.read_le
+  exact ⟨h1, by omega, fun a b hab => Nat.le_trans (ok.buf_le a b hab) h1⟩
+
 /-- credit is issued only for consumed or discarded data: what is advertised beyond the configured
     window (plus shrinks that are still to be applied) equals the bytes consumed or discarded -/
 theorem credit_only_for_consumed {c : Config} {s : State} {C W : Nat} {U : Prop} (r : ReachR c s C W U)
@@ -191,6 +215,14 @@ theorem rcv_regression_maxsd_beyond_limit :
       some (⟨0, 0⟩, ⟨0, 0⟩, ⟨false, false⟩, none) ∧
     ((State.new ⟨.client, 0, 0, 100, 100, 100⟩).bind fun s0 => step s0 (.maxStreamData 4001 5)).map (·.2) =
       some (.errT .streamLimit) := by decide
+
+/-- the fin-below-received history (corpus/streams/fin-below-received.ops): 100 bytes received, then a
+    FIN announcing final size 50: FINAL_SIZE_ERROR, the stream keeps no final size and its 100 bytes -/
+theorem rcv_regression_fin_below_received :
+    ((State.new ⟨.server, 2, 2, 1000, 1000, 1000⟩).bind fun s0 =>
+      (step s0 (.stream 0 0 100 false)).bind fun r1 => step r1.1 (.stream 0 0 50 true)).map
+      (fun r => (r.2, (r.1.rv 0).map fun x => (x.finalOffset, x.end_))) =
+      some (.errT (.finalSize ""), some (none, 100)) := by decide
 
 /-! ### peer-initiated streams stay within the advertised count -/
 
